@@ -275,6 +275,16 @@ func (p *Prog) loadContractFile(path string) error {
 			p.boundedChecks = append(p.boundedChecks, boundedCheck{Label: m[1], File: m[2], Test: m[3], Props: strings.Fields(m[4])})
 			continue
 		}
+		if strings.HasPrefix(line, "wiredual ") {
+			// wiredual props Cxx ...: the relational encode/decode contract (wire.go) for every type of the package
+			// with an encode(packetEncoder, ...) and a decode(packetDecoder, ...) method
+			m := regexp.MustCompile(`^wiredual\s+props\s+(.*)$`).FindStringSubmatch(line)
+			if m == nil {
+				return fmt.Errorf("%s:%d: bad wiredual directive", path, lineNo)
+			}
+			p.wireProps = append(p.wireProps, strings.Fields(m[1])...)
+			continue
+		}
 		if strings.HasPrefix(line, "lean[") {
 			// lean[label] <file relative to the verification directory> props Cxx ...: the axioms labelled
 			// <label> are theorems of that Lean file, which the check compiles with lean (Lean 4 + Mathlib)
